@@ -439,10 +439,18 @@ def run(rep: Report, ctx: Any) -> str:
                        "(module name, class name and the text between them), however either text is put together (f-string, +, local, "
                        "property)")
     _own_import_named_in_full(rep, ix, it)
+    rep.rule("R02.13", "no value of the document is paired away: where the property builders (parser/properties) walk two or more sequences in "
+                       "step - zip(...) without strict=True, map(f, a, b) - and one of them holds document values, the walk ends with the "
+                       "shortest, so the sequences are of one origin (one made from the other: a slice, a comprehension without filter, "
+                       "keys()/values() of one dict, range(len(..))) or their lengths are compared on every path to the walk; otherwise the "
+                       "values beyond the shorter sequence get no member / property and a valid instance that uses them is not decoded")
+    _no_silent_pairing(rep, ix, it)
     rep.not_decided += ["that construct(transform(x)) == x on values (isoparse(x.isoformat()), which of two overlapping union members accepts a "
                         "value, recursion)", "a union member without a type check (const) is decoded in terminal form wherever it stands",
                         "the direction of a loop that walks a member list by a computed index or position (taken to run forwards); in which order "
-                        "the parts of a union (anyOf, oneOf, type list) follow each other"]
+                        "the parts of a union (anyOf, oneOf, type list) follow each other",
+                        "sequences walked in step by index (for i, x in enumerate(a): b[i]) or cut by a slice / islice to another's length; "
+                        "a length comparison made by the caller of the function that pairs"]
     return LEVEL
 
 
@@ -769,6 +777,66 @@ def _own_import_named_in_full(rep: Report, ix: Any, it: Any) -> None:
                               f"`{cores[0]}`: the import of another model whose module or class name merely contains this one's is dropped with "
                               "it, and from_dict / to_dict raise NameError for a value of that model", where(f, x), lhs=t, rhs=cores)
     rep.floor("own_import_tests", n, 1)
+
+
+# ---- R02.13 --------------------------------------------------------------------------------------------------------------------
+def _no_silent_pairing(rep: Report, ix: Any, it: Any) -> None:
+    from ..domain import RAW, RAW_NONSTR, _deep_labels
+
+    cache: dict[str, Any] = {}
+    for f in ix.all_functions:
+        if ".parser.properties" not in f"{f.module.name}.":
+            continue
+        loc = Locals(f.node)
+
+        def origin(e: ast.AST | None, depth: int = 0, loc: Locals = loc) -> str:
+            """the sequence e has its length from"""
+            if e is None or depth > 6:
+                return "?"
+            if isinstance(e, ast.Name):
+                ds = loc.defs.get(e.id, [])
+                return origin(ds[0][2], depth + 1) if len(ds) == 1 and ds[0][0] in ("assign", "ann") and ds[0][2] is not None else e.id
+            if isinstance(e, ast.Subscript) and isinstance(e.slice, ast.Slice):
+                return origin(e.value, depth + 1)
+            if isinstance(e, (ast.ListComp, ast.GeneratorExp)) and len(e.generators) == 1 and not e.generators[0].ifs:
+                return origin(e.generators[0].iter, depth + 1)
+            if isinstance(e, ast.Call) and not e.keywords:
+                if isinstance(e.func, ast.Attribute) and e.func.attr in ("keys", "values", "items") and not e.args:
+                    return origin(e.func.value, depth + 1)
+                if isinstance(e.func, ast.Name) and e.func.id in ("list", "tuple", "sorted", "reversed", "enumerate", "iter", "len", "range", "cast") and e.args:
+                    return origin(e.args[-1] if e.func.id == "cast" else e.args[0], depth + 1) if len(e.args) == (2 if e.func.id == "cast" else 1) else norm(e)
+            return norm(e)
+
+        for c in _own(f.node):
+            if not (isinstance(c, ast.Call) and isinstance(c.func, ast.Name) and c.func.id in ("zip", "map")):
+                continue
+            seqs = c.args if c.func.id == "zip" else c.args[1:]
+            if len(seqs) < 2 or any(isinstance(a, ast.Starred) for a in seqs):
+                continue
+            if any(k.arg == "strict" and isinstance(k.value, ast.Constant) and k.value.value is True for k in c.keywords):
+                continue
+            if not any({RAW, RAW_NONSTR} & _deep_labels(it.node_av.get(id(y))) for a in seqs for y in ast.walk(a)):      # (what a sequence is made from counts)
+                continue
+            origins = {origin(a) for a in seqs}
+
+            def compares(n: object, origins: set[str] = origins) -> bool:
+                if not isinstance(n, (ast.If, ast.While, ast.Assert)):
+                    return False
+                for x in ast.walk(n.test):
+                    if isinstance(x, ast.Compare):
+                        lens = {origin(y.args[0]) for side in [x.left, *x.comparators] for y in ast.walk(side)
+                                if isinstance(y, ast.Call) and isinstance(y.func, ast.Name) and y.func.id == "len" and len(y.args) == 1}
+                        if origins <= lens:
+                            return True
+                return False
+
+            st = stmt_of(f.node, c)
+            tied = len(origins) == 1 or (st is not None and cfg_of(f, cache).is_dominated_by(st, compares))
+            rep.check(tied, "R02.13", f"{short(f)}::walked-in-step[{', '.join(sorted(role_anon(a, f.node) for a in seqs))}]",
+                      f"`{norm(c)[:120]}` ends with the shorter of sequences whose lengths nothing ties to each other, and one of them holds values "
+                      "of the document: what lies beyond the shorter one is dropped without a diagnostic (an enum value without a member, a "
+                      "property without ...), so an instance the schema allows is not decoded", where(f, c), lhs=sorted(origins),
+                      rhs="strict=True, one origin, or a comparison of the lengths on every path")
 
 
 # ---- R02.7 ---------------------------------------------------------------------------------------------------------------------
